@@ -1,6 +1,7 @@
 import SockModel.Drive.Common
 import SockModel.Model.Tls
 import SockModel.Model.PeerFail
+import SockModel.Spec.C18
 /-! Driver for C18.
 
 A transcript of `harness/scen/tls.cpp` is a flat stream of tagged events (see that file).
@@ -12,10 +13,12 @@ For every endpoint the driver
   that the model asks the same questions in the same order (same waits with the same
   timeouts, same sends, same engine calls).  Results, handler calls, futures and the
   POLLOUT bit the driver polls with are compared.
-* **spec** (`Spec.C18`, observations only): no marker in the raw stream, raw stream = TLS
-  records starting with ClientHello / ServerHello, nothing delivered before `init_finished`,
-  payload round trip, completion, a non-TLS peer yields an exception and zero bytes,
-  MSG_NOSIGNAL on every send.
+* **spec**: every line is parsed into a typed observation (`toObs`, `Tls.Spec.Obs`) and the property predicate
+  of `Spec/C18.lean` - `specRun`, then `specFinal` - is evaluated on the observations only: no marker in the raw
+  stream, raw stream = TLS records starting with ClientHello / ServerHello, nothing delivered before
+  `init_finished`, payload round trip, completion, a non-TLS peer yields an exception and zero bytes, MSG_NOSIGNAL
+  on every send, the C07 budget of every TLS call.  This file contains no property clause of its own (one source of
+  truth; `Tls.Spec.model_satisfies_spec_partial` proves that `specRun` accepts every trace of the glue model).
 -/
 namespace SockModel.Drive.C18
 open SockModel SockModel.Drive SockModel.Net SockModel.Tls
@@ -230,14 +233,6 @@ structure EpSt where
   a : Async := {}
   open_ : Option (String × List String × Block) := none     -- API call in progress (op, args, events)
   futSeen : List Bool := []                                -- observed future results, oldest first
-  -- spec side (observations only)
-  lastDoneInit : Bool := false          -- the latest engine answer was `done` with init_finished
-  delivered : Nat := 0
-  threw : Bool := false
-  discSeen : Nat := 0
-  recvOp : Bool := false
-  callT : Option Int := none            -- timeout of the synchronous Send/Receive in progress (C07 clauses)
-  spent : Int := 0                      -- virtual ms its timed-out waits have consumed so far
 
 def exnClass : Exn → String
   | .system _ => "system_error"
@@ -315,67 +310,7 @@ def runSync (C : Cfg) (ep : EpSt) (op : String) (args : List String) (b : Block)
     | _, _ => (some "bad recv op", ep, [])
   | _, _ => (some s!"unknown op {op}", ep, [])
 
-/-! ### Spec.C18 helpers (observations only) -/
-
-def isInfix (pat s : Bytes) : Bool :=
-  if pat.isEmpty then false else
-  let rec go (s : Bytes) (fuel : Nat) : Bool :=
-    match fuel with
-    | 0 => false
-    | fuel + 1 =>
-      if pat.isPrefixOf s then true else
-      match s with
-      | [] => false
-      | _ :: t => go t fuel
-  go s (s.length + 1)
-
-structure Rec where
-  typ : Nat
-  ver : Nat
-  len : Nat
-  first : Nat      -- first payload byte (handshake message type for a plaintext handshake record)
-  complete : Bool
-
-def parseRecords (bs : Bytes) : Except String (List Rec) :=
-  let rec go (bs : Bytes) (fuel : Nat) (acc : List Rec) : Except String (List Rec) :=
-    match fuel with
-    | 0 => .ok acc.reverse
-    | fuel + 1 =>
-      match bs with
-      | [] => .ok acc.reverse
-      | t :: v1 :: v2 :: l1 :: l2 :: rest =>
-        let typ := t.toNat
-        let ver := v1.toNat * 256 + v2.toNat
-        let len := l1.toNat * 256 + l2.toNat
-        if typ < 20 ∨ typ > 23 then .error s!"record {acc.length}: content type {typ} is not a TLS record type"
-        else if ver ≠ 0x0301 ∧ ver ≠ 0x0303 then .error s!"record {acc.length}: version {ver}"
-        else if len > 16384 + 256 then .error s!"record {acc.length}: length {len}"
-        else
-          let first := match rest with | b :: _ => b.toNat | [] => 0
-          if rest.length < len then .ok (⟨typ, ver, len, first, false⟩ :: acc).reverse
-          else go (rest.drop len) fuel (⟨typ, ver, len, first, true⟩ :: acc)
-      | _ => .ok acc.reverse   -- fewer than 5 bytes of a header at the very end
-  go bs (bs.length + 1) []
-
-/-- the raw stream one side wrote: TLS records; the first is a plaintext handshake record carrying
-ClientHello (1) resp. ServerHello (2); in TLS 1.2 no application-data record precedes ChangeCipherSpec -/
-def specWire (who : String) (isClient : Bool) (tls12 : Bool) (wire marker : Bytes) : Option String :=
-  if isInfix marker wire then some s!"plaintext marker found in the raw stream written by {who}"
-  else match parseRecords wire with
-    | .error m => some s!"raw stream of {who} is not a sequence of TLS records: {m}"
-    | .ok [] => none
-    | .ok (r :: rest) =>
-      if r.typ ≠ 22 then some s!"first record written by {who} has type {r.typ}, not handshake(22)"
-      else if r.first ≠ (if isClient then 1 else 2) then
-        some s!"first record written by {who} is handshake message {r.first}, expected {if isClient then "ClientHello" else "ServerHello"}"
-      else if tls12 then
-        let beforeCcs := rest.takeWhile (fun r => r.typ ≠ 20)
-        if beforeCcs.length < rest.length ∧ beforeCcs.any (fun r => r.typ = 23) then
-          some s!"application-data record written by {who} before ChangeCipherSpec (TLS 1.2)"
-        else if ¬ rest.any (fun r => r.typ = 20) ∧ rest.any (fun r => r.typ = 23) then
-          some s!"application-data record written by {who} without a preceding ChangeCipherSpec (TLS 1.2)"
-        else none
-      else none
+/-! ### small helpers -/
 
 def kvOf (w : List String) : List (String × String) :=
   w.filterMap fun t => match t.splitOn "=" with | [k, v] => some (k, v) | _ => none
@@ -387,17 +322,9 @@ def kvGet (m : List (String × String)) (k : String) : String :=
 
 structure DSt where
   eps : List EpSt := []
-  setup : List (String × String) := []
-  marker : Bytes := []
-  cpay : Bytes := []
-  spay : Bytes := []
-  plain : String := "none"
   dopen : List (String × Int × Block) := []      -- driver steps in progress: (driver, timeout, events)
-  loopend : Option String := none
   tags : List String := []
-  corr : Option String := none                   -- first correspondence problem (reported after the spec)
-  strictInit : Bool := true                      -- C18: data may only be delivered when SSL_is_init_finished
-  finals : List (List String) := []
+  corr : Option String := none                   -- first correspondence problem
 
 def DSt.ep? (d : DSt) (n : String) : Option EpSt := d.eps.find? (·.name == n)
 def DSt.setEp (d : DSt) (e : EpSt) : DSt := { d with eps := d.eps.map fun x => if x.name == e.name then e else x }
@@ -475,140 +402,12 @@ def runStep (C : Cfg) (d : DSt) (dname : String) (b : Block) (ret : List String)
         let d := { d with tags := tag :: d.tags }
         match cmp with | some m => d.noteCorr s!"{name}: {m}" | none => d
 
-/-- spec bookkeeping for one event (observations only) -/
-def specEv (d : DSt) (e : Ev) : Except String DSt :=
-  match e with
-  | .sslret who ans init =>
-    match d.ep? who with
-    | some ep => .ok (d.setEp { ep with lastDoneInit := ans.isDone && init })
-    | none => .ok d
-  | .api who op args =>
-    match d.ep? who with
-    | some ep =>
-      let T : Option Int := if op == "send" ∨ op == "recv" then (args.head?.bind String.toInt?) else none
-      .ok (d.setEp { ep with recvOp := op == "recv", callT := T, spent := 0 })
-    | none => .ok d
-  | .os who (.poll _ t ready) =>
-    -- C07 for the TLS socket: "negative = unlimited, zero = never blocks, positive = at most that long in total,
-    -- however many waits the handshake / the record layer needs"; under the virtual clock a wait that times out
-    -- consumes exactly its argument, one that finds the descriptor ready consumes nothing
-    match d.ep? who with
-    | some ep =>
-      match ep.callT with
-      | none => .ok d
-      | some T =>
-        if T < 0 then
-          if t ≥ 0 then .error s!"{who}: call with unlimited timeout issued a bounded wait poll({t})" else .ok d
-        else if T = 0 then
-          if t ≠ 0 then .error s!"{who}: call with timeout 0 issued a blocking wait poll({t})" else .ok d
-        else if t < 0 then .error s!"{who}: call with timeout {T} ms issued an unlimited wait"
-        else if ep.spent + t > T then
-          .error s!"{who}: call with timeout {T} ms waits poll({t}) after its earlier waits already consumed {ep.spent} ms: over budget"
-        else .ok (d.setEp { ep with spent := ep.spent + (if ready then 0 else t) })
-    | none => .ok d
-  | .ret who rest =>
-    match d.ep? who, rest with
-    | some ep, ["n", k] =>
-      let k := k.toNat?.getD 0
-      if ep.recvOp ∧ k > 0 then
-        if d.strictInit ∧ ep.tls ∧ ¬ ep.lastDoneInit then .error s!"{who}: Receive delivered {k} bytes although the engine had not finished the handshake / not answered done"
-        else if d.plain ≠ "none" then .error s!"{who}: Receive delivered {k} bytes from a peer that does not speak TLS"
-        else .ok (d.setEp { ep with delivered := ep.delivered + k, callT := none })
-      else .ok (d.setEp { ep with callT := none })
-    | some ep, "throw" :: _ => .ok (d.setEp { ep with threw := true, callT := none })
-    | some ep, _ => .ok (d.setEp { ep with callT := none })
-    | _, _ => .ok d
-  | .rx who n =>
-    match d.ep? who with
-    | some ep =>
-      if n = 0 then .error s!"{who}: receive handler invoked with an empty buffer"
-      else if d.strictInit ∧ ep.tls ∧ ¬ ep.lastDoneInit then .error s!"{who}: receive handler invoked with {n} bytes although the engine had not finished the handshake"
-      else if d.plain ≠ "none" then .error s!"{who}: receive handler delivered {n} bytes from a peer that does not speak TLS"
-      else .ok (d.setEp { ep with delivered := ep.delivered + n })
-    | none => .ok d
-  | .disc who _ =>
-    match d.ep? who with
-    | some ep =>
-      if ep.discSeen ≥ 1 then .error s!"{who}: disconnect handler invoked twice"
-      else .ok (d.setEp { ep with discSeen := ep.discSeen + 1 })
-    | none => .ok d
-  | .os who (.send _ ns _) =>
-    if ns then .ok d else .error s!"{who}: raw send without MSG_NOSIGNAL"
-  | _ => .ok d
-
-def stateOf (d : DSt) (who : String) : List (String × String) :=
-  match d.finals.find? (fun w => w.take 2 == ["state", who]) with
-  | some w => kvOf w
-  | none => []
-
-def hexOf (d : DSt) (key who : String) : Bytes :=
-  match d.finals.find? (fun w => w.take 2 == [key, who]) with
-  | some [_, _, h] => (hexDecode h).getD []
-  | _ => []
-
-/-- the end-of-case part of Spec.C18 -/
-def specFinal (d : DSt) : Option String := Id.run do
-  let mut problems : List String := []
-  -- raw streams
-  for ep in d.eps do
-    let st := stateOf d ep.name
-    let tls12 := kvGet st "ver" == "TLSv1.2"
-    match specWire ep.name (ep.name == "c") tls12 (hexOf d "wire" ep.name) d.marker with
-    | some m => problems := problems ++ [m]
-    | none => pure ()
-  if problems ≠ [] then return problems.head?
-  let rawgot := match d.finals.find? (fun w => w.head? == some "rawgot") with
-    | some [_, h] => (hexDecode h).getD [] | _ => []
-  if isInfix d.marker rawgot then return some "plaintext marker reached a plain TCP peer"
-  if d.plain ≠ "none" then
-    -- a peer that does not speak TLS: exception / disconnect handler, zero bytes delivered
-    for ep in d.eps do
-      let got := hexOf d "got" ep.name
-      if got ≠ [] then return some s!"{ep.name}: {got.length} bytes delivered from a peer that does not speak TLS"
-      if ¬ (ep.threw ∨ ep.discSeen ≥ 1) then return some s!"{ep.name}: talking to a non-TLS peer was not reported (no exception, no disconnect handler)"
-    -- what the plain peer read must itself be TLS records (an alert) or nothing
-    match parseRecords rawgot with
-    | .error m => return some s!"the plain TCP peer read something that is not a TLS record: {m}"
-    | .ok _ => pure ()
-    return none
-  -- TLS <-> TLS: payload integrity and completion
-  for ep in d.eps do
-    let got := hexOf d "got" ep.name
-    let peerPay := if ep.name == "c" then d.spay else d.cpay
-    let peer := if ep.name == "c" then "s" else "c"
-    let peerSent := (kvGet (stateOf d peer) "sent").toNat?.getD 0
-    if ¬ got.isPrefixOf peerPay then return some s!"{ep.name}: received bytes are not a prefix of what the peer sent ({got.length} bytes received)"
-    -- (while a TLS Send is being retried the engine may already have transmitted records that the Send
-    -- calls so far did not account for; the accounting is exact once the retries are through - see `done` below)
-    let _ := peerSent
-    if ep.threw ∨ ep.discSeen > 0 ∨ kvGet (stateOf d ep.name) "failed" == "1" then
-      return some s!"{ep.name}: failure reported (exception / disconnect / failed future) on a healthy TLS connection"
-  match d.loopend with
-  | some "stuck" =>
-    let pend := d.eps.filter (fun ep => ep.kind == "async" ∧ ((kvGet (stateOf d ep.name) "pending").toNat?.getD 0) > 0)
-    match pend with
-    | ep :: _ =>
-      return some s!"tls-pending-stall: {ep.name} (async, rxBufSize {ep.rsz}) has {kvGet (stateOf d ep.name) "pending"} decrypted bytes pending inside the engine that the driver never delivers; received {(hexOf d "got" ep.name).length}"
-    | [] =>
-      let inits := d.eps.map (fun ep => s!"{ep.name}:init={kvGet (stateOf d ep.name) "init"},got={(hexOf d "got" ep.name).length},sent={kvGet (stateOf d ep.name) "sent"}")
-      return some s!"exchange did not complete (handshake or payload stuck): {inits}"
-  | _ => pure ()
-  -- after the last op every payload must have arrived in full
-  for ep in d.eps do
-    let got := hexOf d "got" ep.name
-    let peerPay := if ep.name == "c" then d.spay else d.cpay
-    if got ≠ peerPay then return some s!"{ep.name}: received {got.length} of {peerPay.length} bytes"
-    if kvGet (stateOf d ep.name) "init" ≠ "1" then return some s!"{ep.name}: handshake not finished at the end"
-  return none
-
 /-- what differs between the properties that share this transcript format -/
 structure Hooks where
-  final : DSt → Option String
-  ev : DSt → Ev → Except String DSt
-  /-- endpoints (and the plain-peer flag) from a `setup` op line -/
-  setup : List (String × String) → List EpSt × String
+  /-- endpoints from a `setup` op line -/
+  setup : List (String × String) → List EpSt
 
-def setupC18 (m : List (String × String)) : List EpSt × String :=
+def setupC18 (m : List (String × String)) : List EpSt :=
   let rsz := (kvGet m "rsz").toNat?.getD 4096
   let shared := kvGet m "shared" == "1"
   let plain := if kvGet m "plain" == "" then "none" else kvGet m "plain"
@@ -616,22 +415,21 @@ def setupC18 (m : List (String × String)) : List EpSt × String :=
   let sk := kvGet m "srv"
   let c : EpSt := { name := "c", kind := ck, driver := if ck == "async" then "dc" else "", rsz := rsz }
   let s : EpSt := { name := "s", kind := sk, driver := if sk == "async" then (if shared ∧ ck == "async" then "dc" else "ds") else "", rsz := rsz }
-  (if plain == "cli" then [s] else if plain == "srv" then [c] else [c, s], plain)
+  if plain == "cli" then [s] else if plain == "srv" then [c] else [c, s]
 
+/-- the correspondence walker: re-runs the glue model next to the observed engine / OS answers.  (The property
+predicate is evaluated before, on the typed observations: `runWith`.) -/
 partial def go (C : Cfg) (H : Hooks) (d : DSt) : List String → Verdict
   | [] =>
-    match H.final d with
-    | some m => Verdict.spec m d.tags
-    | none =>
-      -- futures: model vs. observed
-      let futProblem := d.eps.findSome? fun ep =>
-        if ep.kind == "async" ∧ ep.a.futures.reverse.map (· == .ok) ≠ ep.futSeen then
-          some s!"{ep.name}: futures resolved {ep.futSeen}, model {ep.a.futures.reverse.map (· == .ok)}"
-        else none
-      match d.corr, futProblem with
-      | some m, _ => Verdict.corr m d.tags
-      | none, some m => Verdict.corr m d.tags
-      | none, none => { tags := d.tags }
+    -- futures: model vs. observed
+    let futProblem := d.eps.findSome? fun ep =>
+      if ep.kind == "async" ∧ ep.a.futures.reverse.map (· == .ok) ≠ ep.futSeen then
+        some s!"{ep.name}: futures resolved {ep.futSeen}, model {ep.a.futures.reverse.map (· == .ok)}"
+      else none
+    match d.corr, futProblem with
+    | some m, _ => Verdict.corr m d.tags
+    | none, some m => Verdict.corr m d.tags
+    | none, none => { tags := d.tags }
   | l :: rest =>
     let w := words l
     match w with
@@ -640,103 +438,185 @@ partial def go (C : Cfg) (H : Hooks) (d : DSt) : List String → Verdict
     | "->" :: "hang" :: x => Verdict.spec ("hang: " ++ " ".intercalate x) d.tags
     | "->" :: "killed" :: x => Verdict.spec ("process killed by a signal: " ++ " ".intercalate x) d.tags
     | "->" :: "harness-error" :: x => Verdict.corr ("harness error: " ++ " ".intercalate x) d.tags
-    | "->" :: "setup" :: "ok" :: kvs =>
-      let m := kvOf kvs
-      let pay := fun (a b : String) => (hexDecode (if kvGet m a == "" then kvGet m b else kvGet m a)).getD []
-      let d := { d with marker := (hexDecode (kvGet m "marker")).getD [], cpay := pay "cpay" "xpay", spay := pay "spay" "ppay" }
-      go C H d rest
-    | "->" :: "loopend" :: r :: _ => go C H { d with loopend := some r } rest
-    | "->" :: "wire" :: _ => go C H { d with finals := (w.drop 1) :: d.finals } rest
-    | "->" :: "got" :: _ => go C H { d with finals := (w.drop 1) :: d.finals } rest
-    | "->" :: "state" :: _ => go C H { d with finals := (w.drop 1) :: d.finals } rest
-    | "->" :: "rawgot" :: _ => go C H { d with finals := (w.drop 1) :: d.finals } rest
-    | "->" :: "rawsent" :: _ => go C H { d with finals := (w.drop 1) :: d.finals } rest
+    | "->" :: "setup" :: "ok" :: _ => go C H d rest
+    | "->" :: "loopend" :: _ :: _ => go C H d rest
+    | "->" :: "wire" :: _ => go C H d rest
+    | "->" :: "got" :: _ => go C H d rest
+    | "->" :: "state" :: _ => go C H d rest
+    | "->" :: "rawgot" :: _ => go C H d rest
+    | "->" :: "rawsent" :: _ => go C H d rest
     | "->" :: ev =>
       let e := parseEv ev
-      match H.ev d e with
-      | .error m => Verdict.spec m d.tags
-      | .ok d =>
-        -- route the event to the API block it belongs to
-        match e with
-        | .api who op args =>
-          if op == "step" then
-            go C H { d with dopen := (who, (args.head?.bind String.toInt?).getD 0, {}) :: d.dopen.filter (·.1 != who) } rest
-          else match d.ep? who with
-            | some ep => go C H (d.setEp { ep with open_ := some (op, args, {}) }) rest
+      -- route the event to the API block it belongs to
+      match (e : Ev) with
+      | .api who op args =>
+        if op == "step" then
+          go C H { d with dopen := (who, (args.head?.bind String.toInt?).getD 0, {}) :: d.dopen.filter (·.1 != who) } rest
+        else match d.ep? who with
+          | some ep => go C H (d.setEp { ep with open_ := some (op, args, {}) }) rest
+          | none => go C H d rest
+      | .ret who r =>
+        match d.dopen.find? (·.1 == who) with
+        | some (_, _, b) =>
+          let d := { d with dopen := d.dopen.filter (·.1 != who) }
+          go C H (runStep C d who b r) rest
+        | none =>
+          match d.ep? who with
+          | some ep =>
+            match ep.open_ with
+            | some (op, args, b) =>
+              let (cmp, ep', tg) := runSync C ep op args b r
+              let d := d.setEp { ep' with open_ := none }
+              let d := { d with tags := tg ++ d.tags }
+              go C H (match cmp with | some m => d.noteCorr s!"{who} {op} {" ".intercalate args}: {m}" | none => d) rest
             | none => go C H d rest
-        | .ret who r =>
-          match d.dopen.find? (·.1 == who) with
-          | some (_, _, b) =>
-            let d := { d with dopen := d.dopen.filter (·.1 != who) }
-            go C H (runStep C d who b r) rest
-          | none =>
-            match d.ep? who with
-            | some ep =>
-              match ep.open_ with
-              | some (op, args, b) =>
-                let (cmp, ep', tg) := runSync C ep op args b r
-                let d := d.setEp { ep' with open_ := none }
-                let d := { d with tags := tg ++ d.tags }
-                go C H (match cmp with | some m => d.noteCorr s!"{who} {op} {" ".intercalate args}: {m}" | none => d) rest
-              | none => go C H d rest
-            | none => go C H d rest
-        | .dpoll t res fds =>
-          -- belongs to the driver whose step is open and that owns one of the listed sockets
-          let owner := d.dopen.find? fun (dn, _, _) =>
-            fds.any (fun f => (d.eps.any fun ep => ep.name == f.1 ∧ ep.driver == dn)) ∨ d.dopen.length == 1
-          match owner with
+          | none => go C H d rest
+      | .dpoll t res fds =>
+        -- belongs to the driver whose step is open and that owns one of the listed sockets
+        let owner := d.dopen.find? fun (dn, _, _) =>
+          fds.any (fun f => (d.eps.any fun ep => ep.name == f.1 ∧ ep.driver == dn)) ∨ d.dopen.length == 1
+        match owner with
+        | some (dn, to, b) =>
+          go C H { d with dopen := (dn, to, { b with dpoll := some (t, res, fds) }) :: d.dopen.filter (·.1 != dn) } rest
+        | none => go C H d rest
+      | .dpend who n =>
+        match d.ep? who with
+        | some ep =>
+          match d.dopen.find? (·.1 == ep.driver) with
           | some (dn, to, b) =>
-            go C H { d with dopen := (dn, to, { b with dpoll := some (t, res, fds) }) :: d.dopen.filter (·.1 != dn) } rest
+            go C H { d with dopen := (dn, to, { b with pend := (who, n) :: b.pend }) :: d.dopen.filter (·.1 != dn) } rest
           | none => go C H d rest
-        | .dpend who n =>
-          match d.ep? who with
-          | some ep =>
+        | none => go C H d rest
+      | .enq who n =>
+        match d.ep? who with
+        | some ep =>
+          let x := enqueue (σ := Rep) (ω := RW) { a := ep.a, s := ep.st } (zeros n)
+          go C H { (d.setEp { ep with a := x.a }) with tags := "enq" :: d.tags } rest
+        | none => go C H d rest
+      | .fut who _ res =>
+        match d.ep? who with
+        | some ep =>
+          -- only promises the driver resolved are the model's business (broken ones die with the socket)
+          if res == "ok" ∨ res == "exn" then go C H (d.setEp { ep with futSeen := ep.futSeen ++ [res == "ok"] }) rest
+          else go C H d rest
+        | none => go C H d rest
+      | .other _ => go C H d rest
+      | ev =>
+        -- ssl / bio / os / rx / disc: into the open block of the endpoint (sync) or of its driver (async)
+        let who := match ev with
+          | .ssl w _ _ => w | .sslret w _ _ => w | .sslexn w => w | .bio w _ => w | .os w _ => w
+          | .rx w _ => w | .disc w _ => w | _ => ""
+        match d.ep? who with
+        | none => go C H d rest
+        | some ep =>
+          if ep.kind == "async" then
             match d.dopen.find? (·.1 == ep.driver) with
-            | some (dn, to, b) =>
-              go C H { d with dopen := (dn, to, { b with pend := (who, n) :: b.pend }) :: d.dopen.filter (·.1 != dn) } rest
+            | some (dn, to, b) => go C H { d with dopen := (dn, to, b.add ev) :: d.dopen.filter (·.1 != dn) } rest
             | none => go C H d rest
-          | none => go C H d rest
-        | .enq who n =>
-          match d.ep? who with
-          | some ep =>
-            let x := enqueue (σ := Rep) (ω := RW) { a := ep.a, s := ep.st } (zeros n)
-            go C H { (d.setEp { ep with a := x.a }) with tags := "enq" :: d.tags } rest
-          | none => go C H d rest
-        | .fut who _ res =>
-          match d.ep? who with
-          | some ep =>
-            -- only promises the driver resolved are the model's business (broken ones die with the socket)
-            if res == "ok" ∨ res == "exn" then go C H (d.setEp { ep with futSeen := ep.futSeen ++ [res == "ok"] }) rest
-            else go C H d rest
-          | none => go C H d rest
-        | .other _ => go C H d rest
-        | ev =>
-          -- ssl / bio / os / rx / disc: into the open block of the endpoint (sync) or of its driver (async)
-          let who := match ev with
-            | .ssl w _ _ => w | .sslret w _ _ => w | .sslexn w => w | .bio w _ => w | .os w _ => w
-            | .rx w _ => w | .disc w _ => w | _ => ""
-          match d.ep? who with
-          | none => go C H d rest
-          | some ep =>
-            if ep.kind == "async" then
-              match d.dopen.find? (·.1 == ep.driver) with
-              | some (dn, to, b) => go C H { d with dopen := (dn, to, b.add ev) :: d.dopen.filter (·.1 != dn) } rest
-              | none => go C H d rest
-            else
-              match ep.open_ with
-              | some (op, args, b) => go C H (d.setEp { ep with open_ := some (op, args, b.add ev) }) rest
-              | none => go C H d rest
+          else
+            match ep.open_ with
+            | some (op, args, b) => go C H (d.setEp { ep with open_ := some (op, args, b.add ev) }) rest
+            | none => go C H d rest
     | "setup" :: kvs =>
       let m := kvOf kvs
-      let (eps, plain) := H.setup m
-      go C H { d with eps := eps, setup := m, plain := plain,
+      let eps := H.setup m
+      go C H { d with eps := eps,
                       tags := s!"pair.{"+".intercalate (eps.map fun e => (if e.tls then "tls-" else "plain-") ++ e.kind)}" :: d.tags } rest
     | _ => go C H d rest
 
-def hooksC18 : Hooks := { final := specFinal, ev := specEv, setup := setupC18 }
+def hooksC18 : Hooks := { setup := setupC18 }
 
-def runCase (body : List String) : Verdict := go Cfg.current hooksC18 {} body
+/-! ### parsing lines into observations (`Tls.Spec.Obs`) -/
+
+open SockModel.Tls.Spec in
+def whoOf (n : String) : Who := if n == "c" then .c else if n == "s" then .s else .other n
+
+open SockModel.Tls.Spec in
+/-- an event line (`-> <event>`) -/
+def evObs : Ev → Option Obs
+  | .api who op args =>
+    some (.api (whoOf who) (if op == "send" then .send else if op == "recv" then .recv else .other)
+      (args.head?.bind String.toInt?))
+  | .os who (.poll _ t ready) => some (.poll (whoOf who) t ready)
+  | .os who (.send _ ns _) => some (.send (whoOf who) ns)
+  | .sslret who ans init => some (.sslret (whoOf who) ans.isDone init)
+  | .ret who rest =>
+    match rest with
+    | ["n", k] => some (.ret (whoOf who) (.n (k.toNat?.getD 0)))
+    | "throw" :: _ => some (.ret (whoOf who) .threw)
+    | _ => some (.ret (whoOf who) .other)
+  | .rx who n => some (.rx (whoOf who) n)
+  | .disc who _ => some (.disc (whoOf who))
+  | _ => none
+
+def hexArg : List String → Bytes
+  | [h] => (hexDecode h).getD []
+  | _ => []
+
+open SockModel.Tls.Spec in
+/-- one transcript line (op line or `-> …` observation line) as a typed observation; `none`: the line has no
+meaning for the property -/
+def toObs (l : String) : Option Obs :=
+  match words l with
+  | "->" :: "crash" :: x => some (.abort .crash (" ".intercalate x))
+  | "->" :: "hang" :: x => some (.abort .hang (" ".intercalate x))
+  | "->" :: "killed" :: x => some (.abort .killed (" ".intercalate x))
+  | "->" :: "harness-error" :: _ => none
+  | "->" :: "setup" :: "ok" :: kvs =>
+    let m := kvOf kvs
+    let pay := fun (a b : String) => (hexDecode (if kvGet m a == "" then kvGet m b else kvGet m a)).getD []
+    some (.payload ((hexDecode (kvGet m "marker")).getD []) (pay "cpay" "xpay") (pay "spay" "ppay"))
+  | "->" :: "loopend" :: r :: _ => some (.loopend (r == "stuck"))
+  | "->" :: "wire" :: who :: rest => some (.wire (whoOf who) (hexArg rest))
+  | "->" :: "wire" :: _ => none
+  | "->" :: "got" :: who :: rest => some (.got (whoOf who) (hexArg rest))
+  | "->" :: "got" :: _ => none
+  | "->" :: "state" :: who :: kvs =>
+    let m := kvOf kvs
+    let num := fun (k : String) => if kvGet m k == "" then none else some ((kvGet m k).toNat?.getD 0)
+    some (.state (whoOf who) { tls12 := kvGet m "ver" == "TLSv1.2", sent := num "sent", failed := kvGet m "failed" == "1",
+                               init := num "init", pending := num "pending" })
+  | "->" :: "state" :: _ => none
+  | "->" :: "rawgot" :: rest => some (.rawgot (hexArg rest))
+  | "->" :: "rawsent" :: _ => none
+  | "->" :: ev => evObs (parseEv ev)
+  | "setup" :: kvs =>
+    let m := kvOf kvs
+    let rsz := (kvGet m "rsz").toNat?.getD 4096
+    let plain := if kvGet m "plain" == "" then "none" else kvGet m "plain"
+    some (.setup (if plain == "cli" then none else some ⟨kvGet m "cli" == "async", rsz⟩)
+                 (if plain == "srv" then none else some ⟨kvGet m "srv" == "async", rsz⟩) (plain != "none"))
+  | _ => none
+
+def isHarnessError (l : String) : Option String :=
+  match words l with
+  | "->" :: "harness-error" :: x => some ("harness error: " ++ " ".intercalate x)
+  | _ => none
+
+/-- the lines up to the first `-> harness-error` line (the harness itself gave up there: not a verdict about the
+library), and that line's text -/
+def cutAtHarnessError : List String → List String × Option String
+  | [] => ([], none)
+  | l :: rest =>
+    match isHarnessError l with
+    | some m => ([], some m)
+    | none => let (a, b) := cutAtHarnessError rest; (l :: a, b)
+
+/-- the property predicate on the typed observations (`Spec/C18.lean`), then the correspondence walker -/
+def runWith (C : Cfg) (body : List String) : Verdict :=
+  let (pre, herr) := cutAtHarnessError body
+  match SockModel.Tls.Spec.specRun {} (pre.filterMap toObs) with
+  | .error m => Verdict.spec m
+  | .ok s =>
+    match herr with
+    | some m => Verdict.corr m
+    | none =>
+      match SockModel.Tls.Spec.specFinal s with
+      | some m => Verdict.spec m
+      | none => go C hooksC18 {} body
+
+def runCase (body : List String) : Verdict := runWith Cfg.current body
 /-- the model before 319faf2 (a Receive that timed out leaves WANT_READ cached) -/
-def runCaseLegacyRecv (body : List String) : Verdict := go Cfg.legacyRecvReset hooksC18 {} body
+def runCaseLegacyRecv (body : List String) : Verdict := runWith Cfg.legacyRecvReset body
 
 end SockModel.Drive.C18
